@@ -60,6 +60,10 @@ CHECKS = {
   text="Whole-system deterministic simulation of RTSPS+SRTP sessions with wire taps and tampering: 1..2 medias x 1..3 formats (SSRC sets), server-side writer or recording client over UDP/TCP, readers over UDP/TCP joining late, pausing and resuming, sequence numbers starting just below 65535 so that the roll-over counter advances and late joiners receive a non-zero counter through MIKEY; RTP payloads and RTCP APP packets carry 16 marker bytes that must never appear in any UDP datagram, TCP byte stream or interleaved frame (tap above TLS); every delivered packet must be byte-identical to a written one although datagrams are corrupted (single bit / byte), lost, duplicated and reordered in transit; over TCP everything handed to the stream while the reader plays must arrive (each side decrypts what the other encrypts); plus the three downgrade refusals (secure profile on a plain server with a fully valid KeyMgmt header, unencrypted UDP on a TLS server, a real client redirected from rtsps to rtsp opens no plain connection).",
   note=WHOLE_NOTE + " Tampering inside the TLS stream is not simulated (TLS authenticates it); client-managed keys (MKI) are exercised by C18.",
   tech="deterministic simulation with fault injection: wire taps + in-transit corruption, delivery-identity oracle", ref="3.12"),
+ "C20": dict(
+  text="Whole-system deterministic simulation of URL handling in two workloads: (lib) real Client (play and record, credentials in the URL, Basic/Digest) against a real Server over a simulated network with seeded URLs - IPv4 / IPv6-literal / resolved host names, with and without port, paths with any number of segments, percent-escapes of reserved, unreserved, lower-case-hex and UTF-8 bytes, segments that look like trackID=N, queries containing '/', '?', '=', '&', '@' and escapes; every handler context (Describe, Announce, Setup, Play, Record, Pause) must carry exactly the generator's decoded path and the raw query, every media of a multi-media description must be matched to the media the client asked for (tagged packets per media), credentials never occur in a request line; (camera) real Client against a scripted camera-style server whose DESCRIBE answer uses seeded Content-Base forms (absent, absolute, other host, host-relative) and control attributes (absolute, relative, '?'-style, leading '/', empty, '*', session-level absolute): each SETUP URL must equal the URL computed from the statement's rules and aggregate requests must use the base URL.",
+  note=WHOLE_NOTE + " Silent where the statement is: media-level a=control:* and the host of an absolute control that names another host than the request (listed in the evidence assumptions).",
+  tech="deterministic simulation: seeded URL-space search with real client/server pairs and a scripted camera, reference URL-resolution oracle", ref="3.15"),
  "C18": dict(
   text="Whole-system deterministic simulation with wire taps: server and per-client MaxPacketSize from 32 to 1472 (and default), plain and RTSPS+SRTP (incl. client-managed keys with MKI), UDP and interleaved, packets swept around the limit (header + CSRC + extension + payload + padding; single and compound RTCP) through ServerStream, ServerSession and Client write entry points; every UDP datagram and interleaved-frame payload leaving a library endpoint (automatic reports and firewall-opening packets included) is measured against that endpoint's maximum, an oversize write must return an error and put nothing on the wire, and Start() must reject MaxPacketSize > 1472 and write-queue sizes that are not powers of two.",
   note=WHOLE_NOTE + " The multicast writer entry point and the HTTP/WebSocket tunnels are excluded; maxima below 32 are treated as degenerate.",
@@ -89,7 +93,7 @@ m = {
  ],
  "checks": [chk(p, CHECKS[p]) for p in sorted(CHECKS)],
  "not_applicable": [{"property_id": k, "reason": v} for k, v in sorted(NA.items())],
- "notes": "See DESIGN.md. Exit codes of every check: 0 held, 1 VIOLATION (with replay file), 2 build/tool/watchdog trouble (never printed as a violation). /repo carries one unguarded fix: commit (see known_findings.txt).",
+ "notes": "See DESIGN.md. Exit codes of every check: 0 held, 1 VIOLATION (with replay file), 2 build/tool/watchdog trouble (never printed as a violation). /repo carries unguarded fix: commits, one per repaired defect (see known_findings.txt).",
 }
 json.dump(m, open("/verif/MANIFEST.json", "w"), indent=1)
 print("manifest: checks", sorted(CHECKS))
